@@ -543,7 +543,11 @@ class Gen:
                 common = [c for c in srcs[-1][1] if c in prev_cols]
                 if not self.model and jr < 0.3 and common:
                     self.features.add("using")
-                    from_sql.append(f" JOIN {s} USING ({self.ref(rng.choice(common), 0.05)})")
+                    kind = ""
+                    if rng.random() < 0.2:
+                        kind = rng.choice(["SEMI ", "ANTI ", "LEFT ", "FULL "])
+                        self.features.add("using-" + kind.strip().lower())
+                    from_sql.append(f" {kind}JOIN {s} USING ({self.ref(rng.choice(common), 0.05)})")
                 elif not self.model and jr < 0.55:
                     self.features.add("join-on")
                     allc = [(a, c) for a, cs in srcs for c in cs]
@@ -902,9 +906,31 @@ def oracle(sql, nested_schema, dialect):
                 everything_excluded = all(c in exc0 for _, cols in src_cols for c in (cols or []))
             if everything_excluded:
                 continue  # an empty projection list cannot be written; the star is kept
+            nst = sum(1 for p in s0.expressions if p.is_star)
+            if known and nst >= 2 and any((p if isinstance(p, exp.Star) else p.this).args.get("except_") for p in s0.expressions if p.is_star):
+                return ("star-except-leaks-to-other-star", f"an EXCEPT list emptied every star of the select (it applies to its own star only): {s1!r}")
             if known and not dup and not any(cols is not None and "*" in cols for _, cols in src_cols):
                 return ("star-not-expanded", f"a star survives in {s1!r}")
             continue
+        if known and has_using and not dup:
+            joins0 = s0.args.get("joins") or []
+            simple = (len(s0.expressions) == 1 and isinstance(s0.expressions[0], exp.Star)
+                      and not any(v not in (None, [], False) for v in s0.expressions[0].args.values())
+                      and all(isinstance(it, exp.Table) for it in srcs1)
+                      and not any(j.method == "NATURAL" for j in joins0)
+                      and len(joins0) == len(src_cols) - 1)
+            if simple:
+                # SQL: a USING column appears once (from the left side); every other column of every joined
+                # table appears, in FROM order; the right side of a SEMI/ANTI join contributes nothing
+                want = list(src_cols[0][1])
+                for j, (_, cols) in zip(joins0, src_cols[1:]):
+                    if j.is_semi_or_anti_join:
+                        continue
+                    u = {d.normalize_identifier(x.copy()).name for x in (j.args.get("using") or []) if isinstance(x, exp.Identifier)}
+                    want += [c for c in cols if c not in u]
+                got_u = [p.alias_or_name for p in s1n.expressions]
+                if got_u != want:
+                    return ("star-with-using-wrong-columns", f"SELECT * over USING joins gives {got_u}, SQL gives {want} in {s1!r}")
         if not known or has_using:
             continue
         # expected output names
@@ -1266,6 +1292,8 @@ def minimise(sql, schema, dialect, kind):
 
 
 WITNESSES = [
+    ("SELECT * FROM t JOIN u USING (b) JOIN w ON t.a = w.c", {"t": {"a": "INT", "b": "INT"}, "u": {"b": "INT", "c": "INT"}, "w": {"b": "INT", "c": "INT"}}, None),
+    ("SELECT b FROM t SEMI JOIN u USING (b)", {"t": {"a": "INT", "b": "INT"}, "u": {"b": "INT", "c": "INT"}}, None),
     # (sql, schema, dialect): the DESIGN §6 style templates + the Lean counter-example witnesses
     ("SELECT a FROM t GROUP BY a HAVING zzz > 1", {"t": {"a": "INT", "b": "INT"}}, None),
     ("SELECT 1 AS x FROM t GROUP BY x HAVING x > 1", {"t": {"a": "INT", "b": "INT"}}, None),
@@ -1276,6 +1304,28 @@ WITNESSES = [
     ("WITH c(x, y) AS (SELECT a, b FROM t) SELECT * FROM c, c AS c2 ORDER BY 1", {"t": {"a": "INT", "b": "INT"}}, "duckdb"),
     ('SELECT "A", a FROM T AS "T" WHERE A > 1', {"t": {"a": "INT"}}, "snowflake"),
 ]
+
+
+def db_arg_oracle(sql, schema, dialect, db_name, quoted):
+    """qualify(db=<identifier text in the dialect's quoting>) must equal qualify(db=<the Identifier node>)"""
+    sqlglot, exp, Dialect, Dialects, OptimizeError, qualify, MappingSchema = sg()
+    node = exp.Identifier(this=db_name, quoted=quoted)
+    text = node.sql(dialect=dialect)
+    outs = []
+    for arg in (text, node.copy()):
+        try:
+            tree = sqlglot.parse_one(sql, dialect=dialect)
+        except Exception:  # noqa
+            return None
+        try:
+            outs.append(qualify(tree, schema=schema, dialect=dialect, db=arg).sql(dialect=dialect))
+        except OptimizeError:
+            outs.append("<OptimizeError>")
+        except Exception as e:  # noqa
+            outs.append(f"<{type(e).__name__}>")
+    if outs[0] != outs[1]:
+        return ("db-argument-string-vs-identifier", f"qualify(db={text!r}) gives {outs[0][:200]!r}; qualify(db=Identifier({db_name!r}, quoted={quoted})) gives {outs[1][:200]!r}")
+    return None
 
 
 def consider(chk: Check, sql, schema, dialect, stats):
@@ -1337,6 +1387,32 @@ def search_idents(chk: Check):
                                                  {"ident": {"dialect": spec, "name": nm, "quoted": quoted, "is_table": is_table}},
                                                  context={"kind": k})
     chk.count("search:identifier-questions", len(names) * 4 * 6 * len(list(Dialects)))
+    # string entry point: normalize_identifiers("<identifier in the dialect's own quoting>", dialect) must parse
+    # the text with THAT dialect and agree with normalising the Identifier node
+    from sqlglot.optimizer.normalize_identifiers import normalize_identifiers
+
+    for d in Dialects:
+        dd = Dialect.get_or_raise(d.value or None)
+        for nm in ["a", "Ab", "AB", "x y", "Straße"]:
+            for quoted in (False, True):
+                if not quoted and not nm.isidentifier():
+                    continue
+                node = exp.Identifier(this=nm, quoted=quoted)
+                text = node.sql(dialect=d.value or None)
+                want = dd.normalize_identifier(node.copy())
+                try:
+                    got = normalize_identifiers(text, dialect=d.value or None)
+                    g = (got.this, bool(got.args.get("quoted"))) if isinstance(got, exp.Identifier) else ("<" + type(got).__name__ + ">", None)
+                except Exception as e:  # noqa
+                    g = ("<" + type(e).__name__ + ">", None)
+                w = (want.this, bool(want.args.get("quoted")))
+                chk.count("search:identifier-string-entry")
+                if g != w and bad < 3:
+                    bad += 1
+                    chk.report_violation(f"normalize-identifiers-string-entry|quoted={quoted}",
+                                         f"normalize_identifiers({text!r}, dialect={d.value!r}) gives {g}, normalising the Identifier node gives {w}",
+                                         {"ident": {"dialect": d.value, "name": nm, "quoted": quoted, "is_table": False}},
+                                         context={"kind": "normalize-identifiers-string-entry", "dialect": d.value or ""})
 
 
 def search(chk: Check, hints, budget_s):
@@ -1358,6 +1434,14 @@ def search(chk: Check, hints, budget_s):
             chk.count("search-feature:" + f)
         chk.case(("s", sql, dialect), nontrivial=True)
         consider(chk, sql, schema, dialect, stats)
+        if rng.random() < 0.15:
+            dbn, qd = rng.choice(DB_NAMES), rng.random() < 0.6
+            res = db_arg_oracle(sql, schema, dialect, dbn, qd)
+            chk.count("search:db-argument-string-entry")
+            if res:
+                chk.report_violation(res[0] + "|" + skeleton(sql, dialect)[:80], res[1],
+                                     {"sql": sql, "schema": schema, "dialect": dialect, "db": [dbn, qd]},
+                                     context={"kind": res[0], "dialect": dialect or ""})
         if len(chk.violations) >= 4:
             break
     chk.search_info = {"ran": True, "budget_s": budget_s, "queries": stats["tried"], "violating": stats["violating"],
@@ -1442,6 +1526,10 @@ def replay(path: str) -> int:
         twice = dd.normalize_identifier(exp.Identifier(this=once, quoted=i["quoted"])).this
         print("replay:", i, "->", repr(once), "->", repr(twice))
         return 1
+    if "db" in r:
+        res = db_arg_oracle(r["sql"], r["schema"], r["dialect"], r["db"][0], r["db"][1])
+        print("replay:", "VIOLATES: " + res[0] + ": " + res[1] if res else "holds")
+        return 1 if res else 0
     res = oracle(r["sql"], r["schema"], r["dialect"])
     print("replay:", "VIOLATES: " + res[0] + ": " + res[1] if res else "holds")
     return 1 if res else 0
